@@ -539,6 +539,14 @@ func c26Generate(r *verifh.Run) []string {
 			lines = append(lines, l)
 		}
 	}
+	// stress: free-running rounds of {job whose tasks all fail at the same moment, clean job}
+	for _, wk := range []int{32, 2, 32, 5, 32, 16, 32, 9, 32, 24, 32, 3, 32} {
+		rounds := r.N(900, 12000)
+		if wk != 32 {
+			rounds /= 6
+		}
+		lines = append(lines, fmt.Sprintf("stress %d %d", wk, rounds))
+	}
 	for c, n := 0, r.N(300, 6000); c < n; c++ {
 		lines = append(lines, fmt.Sprintf("free %d %d %d", g.U64()%1000000007, 1+g.Intn(16), 1+g.Intn(6)))
 	}
@@ -600,6 +608,22 @@ func TestVerifC26(t *testing.T) {
 				continue
 			}
 			r.Emit(l, c26Serial(r, f[1:]))
+		case f[0] == "stress" && len(f) == 3:
+			c.finish()
+			if c != nil && c.hung {
+				broken = true
+				continue
+			}
+			c = nil
+			wk, rounds := atoi(f[1]), atoi(f[2])
+			if wk < 2 || wk > 64 || rounds < 1 || rounds > 1000000 {
+				r.Emit(l, "bad-op")
+				continue
+			}
+			r.Emit(l, "ok")
+			if !c26Stress(r, wk, rounds) {
+				broken = true
+			}
 		case f[0] == "free" && len(f) == 4:
 			c.finish()
 			if c != nil && c.hung {
@@ -810,6 +834,74 @@ func c26Serial(r *verifh.Run, bits []string) string {
 		r.Violation("callback-early", "serial: Done callback not called")
 	}
 	return fmt.Sprintf("res=%s ran=%s", res, c26Set(ran))
+}
+
+// c26Stress: no gates, real timing. Each round submits a job whose tasks all fail at the
+// same moment (start barrier), immediately followed by a clean job on the same pool. On
+// correct code the outcome is deterministic: the failing job reports an error of one of its
+// tasks, the clean job reports nil and runs every task. A worker that lets the scheduler see
+// the job as finished before the error is recorded loses the error and leaks it into the
+// next job. Returns false if the pool hung.
+func c26Stress(r *verifh.Run, wk, rounds int) bool {
+	p := NewParallel(wk, 4)
+	lost, leaked := 0, 0
+	for i := 0; i < rounds; i++ {
+		var arrived atomic.Int32
+		fj, err := p.NewJob(wk)
+		if err != nil {
+			r.Violation("newjob-error", "stress: NewJob returned %v", err)
+			return true
+		}
+		for k := 0; k < wk; k++ {
+			t := k
+			fj.Go(func() error {
+				arrived.Add(1)
+				deadline := time.Now().Add(5 * time.Millisecond)
+				for int(arrived.Load()) < wk && time.Now().Before(deadline) {
+					runtime.Gosched()
+				}
+				return c26Err{t}
+			})
+		}
+		fj.Done(nil)
+		var ran atomic.Int32
+		cj, err := p.NewJob(wk)
+		if err != nil {
+			r.Violation("newjob-error", "stress: NewJob returned %v", err)
+			return true
+		}
+		for k := 0; k < wk; k++ {
+			cj.Go(func() error { ran.Add(1); return nil })
+		}
+		cj.Done(nil)
+		fres, ok1 := c26WaitJob(fj)
+		cres, ok2 := c26WaitJob(cj)
+		if !ok1 || !ok2 {
+			r.Violation("hang", "stress workers=%d round %d: Wait did not return", wk, i)
+			return false
+		}
+		if !strings.HasPrefix(fres, "err:") && lost == 0 {
+			lost++
+			r.Violation("error-lost", "stress workers=%d round %d: every task of the job failed but Wait returned %s", wk, i, fres)
+		}
+		if (cres != "ok" || int(ran.Load()) != wk) && leaked == 0 {
+			leaked++
+			r.Violation("error-leaks-into-next-job", "stress workers=%d round %d: the job after a failing job has no failing task but Wait returned %s and %d of %d tasks ran", wk, i, cres, ran.Load(), wk)
+		}
+		if lost+leaked > 0 {
+			break
+		}
+	}
+	done := make(chan struct{})
+	go func() { p.Stop(); close(done) }()
+	select {
+	case <-done:
+	case <-time.After(c26Timeout):
+		r.Violation("hang", "stress workers=%d: Stop did not return", wk)
+		return false
+	}
+	r.Count("stress-pools")
+	return true
 }
 
 // c26Free: free-running jobs (real timing, random delays, failures, Stop while jobs run).
